@@ -67,6 +67,9 @@ def make_compare():
             if abs(bx - by) > lim:
                 return ("c05:differs:%s-offset" % {"H": "hook", "Y": "yield", "T": "terminal"}[x[0]],
                         "event %d %s fires while processing byte %d at -O0 but byte %d in this build (allowed shift %d)" % (i, x[:2], bx, by, lim))
+            if x[0] == "Y" and x[2] >= 0 and y[2] >= 0 and x[2] != y[2]:
+                # the position a yield reports is what a lexer cuts its tokens with: it may not move with the optimisation level
+                return ("c05:differs:yield-pointer", "yield %s reports position %d at -O0 but %d in this build" % (p0.code_name(x[1]), x[2], y[2]))
             if x[0] in ("Y", "T") and x[2] >= 0 and y[2] >= 0 and abs(x[2] - y[2]) > lim:
                 return ("c05:differs:pointer-offset", "pointer offset %d vs %d at event %d %s" % (x[2], y[2], i, x[:2]))
         longer = a if len(a) > len(b) else b
@@ -93,6 +96,12 @@ def run(ctx: Ctx):
         vs = [["-O1"], ["-O2"], ["-O3"]] + (rng.sample(allv[3:], 3) if quick else allv[3:])
         variants = [("O0", src, args + ["-O0", "-findirect-start-ptr"])] + [("v", src, args + v + ["-findirect-start-ptr"]) for v in vs]
         cases.append(diff.Case("gen", variants, ast=ast))
+    # lexers with adjacent open-ended tokens: the positions reported by yields are what the optimiser must not move
+    from . import c08
+    for ast in c08.open_token_shapes(rng, 8 if quick else 80) + c08.prefix_loop_shapes(rng, 4 if quick else 40):
+        src = gen.prog_src(ast)
+        variants = [("O0", src, list(ast.args) + ["-O0", "-findirect-start-ptr"])] + [("v", src, list(ast.args) + v + ["-findirect-start-ptr"]) for v in (["-O2"], ["-O3"], ["-O1", "-fshortcircuit-fallthroughs"])]
+        cases.append(diff.Case("lexer", variants, ast=ast))
     for fn, src, args, seeds in work.corpus():
         b = fn.rsplit("/", 1)[-1]
         if quick and b in ("gtfs-realtime.nmfu", "ttc_rdf.nmfu"):
